@@ -201,6 +201,9 @@ func (w *World) mutateConfig(latest raft.VConfig) raft.VConfig {
 }
 
 func (w *World) payload() string {
+	if w.chance(6) {
+		return "" // an update command may be empty
+	}
 	n := 1 + w.Rng.Intn(40)
 	if w.chance(15) {
 		n = 100 + w.Rng.Intn(200)
@@ -554,8 +557,12 @@ func (w *World) genReplUpdates(d *raft.VNode) (Op, bool) {
 		n = 2 + w.Rng.Intn(2)
 	}
 	op := Op{Kind: "replUpdates"}
+	reported := map[uint64]uint64{} // a replication never reports a lower match index than before (Repl.match_index_sound)
 	for i := 0; i < n; i++ {
 		r := d.Ldr.Repls[w.Rng.Intn(len(d.Ldr.Repls))]
+		if v, ok := reported[r.ID]; ok && v > r.MatchIndex {
+			r.MatchIndex = v
+		}
 		u := raft.VReplUpdate{ID: r.ID}
 		switch k := w.Rng.Intn(100); {
 		case k < 70:
@@ -577,6 +584,7 @@ func (w *World) genReplUpdates(d *raft.VNode) (Op, bool) {
 			if u.Val < r.MatchIndex {
 				u.Val = r.MatchIndex
 			}
+			reported[r.ID] = u.Val
 		case k < 85:
 			u.Kind, u.Flag = "noContact", !r.NoContact
 		case k < 93:
@@ -796,6 +804,54 @@ func (w *World) GenOp() Op {
 	default: // leader
 		if d.Ldr.Transfer.Active {
 			w.St.Hist["gen:leader-with-transfer-active"]++
+		}
+		pendingAct := false
+		for _, n := range d.Configs.Latest.Nodes {
+			if n.Action != 0 {
+				pendingAct = true
+			}
+		}
+		if pendingAct && !d.Ldr.Transfer.Active && len(d.Ldr.Repls) > 0 && w.chance(15) {
+			// membership actions are still pending: a transfer that cannot complete at once holds them back
+			tgt := uint64(0)
+			for _, r := range d.Ldr.Repls {
+				if r.Node.Voter && r.MatchIndex < d.LastLogIndex {
+					tgt = r.ID
+				}
+			}
+			if tgt != 0 {
+				return Op{Kind: "transfer", Task: w.NextTask(), Target: tgt}
+			}
+		}
+		if pendingAct && d.Ldr.Transfer.Active && d.Configs.Latest.Index != d.Configs.Committed.Index && w.chance(40) {
+			// … the configuration in progress commits meanwhile (a quorum catches up, the transfer target does not)
+			us := []raft.VReplUpdate{}
+			for _, r := range d.Ldr.Repls {
+				if r.ID != d.Ldr.Transfer.Target && r.MatchIndex < d.LastLogIndex {
+					u := raft.VReplUpdate{ID: r.ID, Kind: "matchIndex", Val: d.LastLogIndex}
+					if w.Node.CanReplUpdate(u) {
+						us = append(us, u)
+					}
+				}
+			}
+			if len(us) > 0 {
+				return Op{Kind: "replUpdates", Updates: us}
+			}
+		}
+		if d.Ldr.Transfer.Active && w.chance(35) {
+			// a non-voter finishes its promotion round while the transfer holds the promotion back
+			for _, r := range d.Ldr.Repls {
+				if r.Round != nil && r.MatchIndex < d.LastLogIndex {
+					u := raft.VReplUpdate{ID: r.ID, Kind: "matchIndex", Val: d.LastLogIndex}
+					if w.Node.CanReplUpdate(u) {
+						return Op{Kind: "replUpdates", Updates: []raft.VReplUpdate{u}}
+					}
+				}
+			}
+		}
+		if d.Ldr.Transfer.Active && !d.Ldr.Transfer.RespPending && !d.Ldr.Transfer.NewTermTimer && w.chance(12) {
+			// the transfer does not complete in time: what was held back during it must resume
+			return Op{Kind: "transferTimeout"}
 		}
 		if d.Ldr.Transfer.Active && !d.Ldr.Transfer.RespPending && len(d.Ldr.Repls) > 0 && w.chance(60) {
 			// a transfer waits for a target: some follower (voter or not) catches up
